@@ -31,11 +31,15 @@ A real-vs-evaluator difference is the business of checks/parts/evaldiff.py (C02 
 shows up as (2) or (3).  level = 1: fragment F1 (straight-line), 2: F2 (+ && || loops print).
 Env COMPILETIE_RUN overrides the runner binary (used to try a model before installing it).
 
-LEVEL 3 (run_compiletie3, engine build/ocaml/compile3 = coq/Src/Compile3.v + coq/VM/ValueVM3.v, the
-stage-3 model with frames; levels 1 and 2 stay on the stage-2 model the closed theorems are about):
+LEVEL 3 (run_compiletie(ctx, n, seed, level=3), which dispatches to run_compiletie3; engine
+build/ocaml/compile3 = coq/Src/Compile3.v + coq/VM/ValueVM3.v, the stage-3 model with frames, about which
+compile_expr_correct_frames and compile_program_correct_F3 are proved (Properties_C02b.v); levels 1 and 2
+stay on the stage-2 model coq/Src/Compile.v + coq/VM/ValueVM.v of the F1/F2 theorems):
 Pipeline: `build/ocaml/compile3/run gen <seed> <first> <k> <dir> <level>` (16 chunks in parallel)
 generates programs of the fragment (harness/ocaml/compile3/cgen.ml: level 3 = several top-level
-functions, calls, recursion to depth 300, self tail calls, faults in callees, argument-order probes), pretty-prints them and writes,
+functions, calls, recursion to depth 300, self tail calls, faults in callees, argument-order probes;
+level 5 = level 3 + catch clauses: named clauses that match / do not match, catch-all clauses, clause
+blocks that fault themselves), pretty-prints them and writes,
 per case, the model's WHOLE module image (extracted `compile_program`: global prelude, entry stub,
 stdlib bodies, every function of the program; linked, i.e. with absolute MARK / ID_FUNC_ADDR
 operands), its exception table, the result of the extracted ValueVM (from the entry stub to HALT or
